@@ -190,7 +190,6 @@ contract('gnpy.core.elements.Multiband_amplifier.to_json', props=['C17'],
          params={'self': obj('Multiband_amplifier', uid=string(), params=obj('<ns>', type_variety=string()), metadata=META,
                              amplifiers=dct_k({'LBAND': _BAND_AMP(), 'CBAND': _BAND_AMP()}))},
          let={'a': "result['amplifiers']", 'src': "[self.amplifiers['LBAND'], self.amplifiers['CBAND']]"},
-         requires=[('designed_gain_not_zero', "self.amplifiers['LBAND'].effective_gain != 0 and self.amplifiers['CBAND'].effective_gain != 0")],
          ensures=[('one_entry_per_band_amplifier', "len(a) == 2 and all(a[k]['type_variety'] == src[k].params.type_variety for k in range(2))"),
                   ('gain', "all(a[k]['operational']['gain_target'] == round(src[k].effective_gain, 6) for k in range(2))"),
                   # the designed power offset, not the operator's input (None when it was left to the design)
